@@ -229,6 +229,13 @@ def gen_calls(rng, lat, dim, nu, sites, exact, explicit):
                 ops.append([nm, dx, us[n] if sites[us[n]]['type'] == sites[us[0]]['type'] else us[0]])
             if all(o[1] == ops[0][1] and o[2] == ops[0][2] for o in ops):
                 continue
+            fits = True
+            for a in range(dim):
+                span = max(o[1][a] for o in ops) - min(o[1][a] for o in ops)
+                if bc_open[a] and not (a == 0 and infinite) and span > Ls[a] - 1:
+                    fits = False
+            if not fits:
+                continue
             calls.append({'fn': 'add_multi_coupling', 'strength': rand_strength(rng, None, exact, even, allow_array=False),
                           'ops': ops, 'plus_hc': plus_hc, 'switchLR': rng.choice([None, 'middle_i', 'middle_op'])})
         elif kind == 'exp':
@@ -279,6 +286,13 @@ def gen_calls(rng, lat, dim, nu, sites, exact, explicit):
             for nm in names:
                 pos = [rng.randrange(Ls[a]) + (rng.choice([0, 0, Ls[0]]) if (a == 0 and infinite) else 0) for a in range(dim)]
                 term.append([nm, pos + [rng.randrange(nu) if len(set(s['type'] for s in sites)) == 1 else u]])
+            if infinite:
+                # the left-most operator lies in the first unit cell
+                mn = min(t[1][0] // Ls[0] for t in term)
+                for t in term:
+                    t[1][0] -= mn * Ls[0]
+                if dim == 1 and nu == 1 and False:
+                    pass
             calls.append({'fn': 'add_local_term', 'strength': rand_strength(rng, None, exact, even, allow_array=False),
                           'term': term, 'plus_hc': plus_hc})
         else:
@@ -561,6 +575,17 @@ def check_case(ctx, case, r, fam_store):
             if (case['spec'].get('explicit_plus_hc') and not c.get('plus_hc') and c['strength'].get('dtype') == 'int'
                     and c['fn'] == 'add_onsite'):
                 mk = 'C10:add_onsite:int-strength-with-explicit_plus_hc'
+        if 'error_call' not in r:
+            # a Hamiltonian without any term cannot be built (no path IdL -> IdR): trivial case
+            try:
+                info0 = {'Ls': case['spec']['lattice']['Ls'], 'order': [[0] * (len(case['spec']['lattice']['Ls']) + 1)], 'bc': [True], 'finite': True, 'N': 1}
+                empty = "can't determine all charges" in r['error']
+            except Exception:
+                empty = False
+            if empty and not any(True for c_ in case['spec']['calls'] if c_['fn'] not in ('add_exponentially_decaying_coupling',
+                                                                                       'add_exponentially_decaying_centered_terms')):
+                ctx.count('models', case['spec'], nontrivial=False)
+                return None
         ctx.fail('oracle', 'valid model specification raised: ' + r['error'], label, match_key=mk)
         ctx.count('models', case['spec'], nontrivial=True)
         return None
@@ -628,7 +653,29 @@ def check_case(ctx, case, r, fam_store):
     cmp('H_ed_from_H_mpo', Href, what='ExactDiag.from_H_mpo')
     cmp('H_bond_window', Href_bond, what='sum of H_bond (calc_H_bond)')
     cmp('H_ed_bond', Href, what='ExactDiag.build_full_H_from_bonds')
-    cmp('H_mpo_from_bond', Href, what='calc_H_MPO_from_bond')
+    Href_from_bond = Href
+    if not finite and 'H_mpo_from_bond' in mats and N >= 2 * r['L']:
+        # calc_H_MPO_from_bond moves the partial traces of every bond operator into on-site terms; on a window of an
+        # infinite system the two bonds cut by the window edges leave those on-site parts behind
+        Lc = r['L']
+        geo2 = O.Geometry(r, lo=Lc - 1, hi=Lc)
+        dense2 = O.Dense(geo2, ops, r['needs_JW'])
+        if is_spec:
+            H2, os2, _ = O.expected_from_spec(case['spec'], dense2)
+            if case['spec'].get('explicit_plus_hc'):
+                H2 = 0.5 * (H2 + H2.conj().T)
+                os2 = {k: 0.5 * (m_ + m_.conj().T) for k, m_ in os2.items()}
+        else:
+            H2, os2 = O.dense_from_containers(r, dense2)
+        Cb = H2 - sum(os2.values()) if os2 else H2
+        dL_, dR_ = dense2.dims
+        C4 = Cb.reshape(dL_, dR_, dL_, dR_)
+        tL = np.einsum('abcb->ac', C4) / dR_                      # acts on the left site of the bond
+        C4 = C4 - np.einsum('ac,bd->abcd', tL, np.eye(dR_))
+        tR = np.einsum('abad->bd', C4) / dL_                      # acts on the right site
+        D_rest = int(np.prod(r['dims'][1:]))
+        Href_from_bond = Href + np.kron(tR, np.eye(D_rest)) + np.kron(np.eye(int(np.prod(r['dims'][:-1]))), tL)
+    cmp('H_mpo_from_bond', Href_from_bond, what='calc_H_MPO_from_bond')
     cmp('H_bond_from_mpo', Href_bond, what='calc_H_bond_from_MPO')
     cmp('H_sorted_legs', Href, what='MPO after sort_legcharges')
     cmp('H_bond_from_plain_MPOModel', Href_bond, what='MPOModel(lat, H_MPO).calc_H_bond_from_MPO')
@@ -636,21 +683,38 @@ def check_case(ctx, case, r, fam_store):
         what='the original MPO after H.copy().sort_legcharges()')
     cmp('H_enlarged', Href, what='MPO after enlarge_mps_unit_cell(2)')
     cmp('H_enlarged_bond', Href_bond, what='H_bond after enlarge_mps_unit_cell(2)')
-    if r.get('trivial_charges'):
-        cmp('H_group', Href, what='MPO after group_sites(2)')
-        if finite:      # (on a window of an infinite system the bonds of grouped sites cut through the edge groups)
-            cmp('H_group_bond', Href_bond, what='H_bond after group_sites(2)')
-    else:
-        for nm in ('H_group', 'H_group_bond') if finite else ('H_group',):
-            if nm in mats and hermitian and mats[nm].shape == Href.shape:
-                ref = Href if nm == 'H_group' else Href_bond
-                if maxdiff(mats[nm], mats[nm].conj().T) > tol:
-                    problems.append(('C10:' + nm, nm + ' not Hermitian although the terms are'))
-                else:
-                    ev1 = np.linalg.eigvalsh(mats[nm])
-                    ev2 = np.linalg.eigvalsh(ref)
-                    if np.max(np.abs(ev1 - ev2)) > 1e-8 * scale:
-                        problems.append(('C10:' + nm, nm + ' has a different spectrum (%.3e)' % np.max(np.abs(ev1 - ev2))))
+    def same_operator(m, ref):
+        """equal (no charges: same basis) or, for charge-sorted grouped bases, equal spectrum of a Hermitian operator"""
+        if m.shape != ref.shape:
+            return False, 'shape %s' % (m.shape,)
+        if r.get('trivial_charges'):
+            d = maxdiff(m, ref)
+            return d <= tol, 'differs by %.3e' % d
+        if not hermitian:
+            return True, 'not compared'
+        if maxdiff(m, m.conj().T) > tol:
+            return False, 'not Hermitian although the terms are'
+        d = float(np.max(np.abs(np.linalg.eigvalsh(m) - np.linalg.eigvalsh(ref))))
+        return d <= 1e-8 * scale, 'has a different spectrum (%.3e)' % d
+    if 'H_group' in mats:
+        ok, why = same_operator(mats['H_group'], Href)
+        if not ok:
+            problems.append(('C10:H_group', 'MPO after group_sites(2) ' + why))
+    if 'H_group_bond' in mats and finite:
+        # (on a window of an infinite system the bonds of grouped sites cut through the edge groups: not compared)
+        ok, why = same_operator(mats['H_group_bond'], Href_bond)
+        if not ok:
+            key = 'C10:H_group_bond'
+            L_ = r['L']
+            if 'Hb_last' in mats and L_ % 2 == 0 and L_ >= 4 and r['dims'][L_ - 4:L_ - 2] == r['dims'][L_ - 2:]:
+                # known defect: the bond inside the last group is put on the previous group
+                dl = int(np.prod(r['dims'][:L_ - 4]))
+                d2 = int(np.prod(r['dims'][L_ - 2:]))
+                T = mats['Hb_last']
+                pred = Href_bond - np.kron(np.eye(dl * d2), T) + np.kron(np.kron(np.eye(dl), T), np.eye(d2))
+                if same_operator(mats['H_group_bond'], pred)[0]:
+                    key = 'C10:NearestNeighborModel.group_sites:finite-last-group-bond-misplaced'
+            problems.append((key, 'H_bond after group_sites(2) ' + why))
     # exporters
     perms = [r['perm'][k % r['L']] for k in range(N)]
     if finite:
@@ -727,17 +791,31 @@ def check_case(ctx, case, r, fam_store):
             problems.append(('C10:is_hermitian', 'terms are Hermitian but H_MPO.is_hermitian() is False'))
         if (not hermitian) and herm_defect > 1e-3 * scale and r['is_hermitian']:
             problems.append(('C10:is_hermitian', 'operator is not Hermitian (defect %.2e) but H_MPO.is_hermitian() is True' % herm_defect))
+    # a nearest-neighbour Hamiltonian must have a bond form
+    if 'no_bond' in r and 'onsite' in r:
+        nn = not r['exp']['exp'] and not r['exp']['centered']
+        for e_ in (r.get('coupling') or []):
+            nn = nn and e_[3] == e_[0] + 1
+        for t_ in (r.get('multi') or []):
+            ks_ = [k_ for k_, o_ in t_['word'] if o_ != 'Id']
+            nn = nn and len(t_['word']) == 2 and t_['word'][1][0] == t_['word'][0][0] + 1
+        if nn and (r.get('coupling') or r.get('multi') or r.get('onsite')):
+            problems.append(('C10:calc_H_bond:raises', 'calc_H_bond raised (%s) although all terms are on-site or nearest-neighbour' % r['no_bond']))
     # every representation must have been produced
     for nm, e in r['errors'].items():
         key = 'C10:raises:' + nm
-        if nm == 'H_mpo_from_bond' and 'chinfo' in e and all(len(set(k for _, k in t[2])) == 1 for t in ([] if not is_spec else
-                                                              O.user_level_terms(case['spec'], geo))) and (is_spec or not (r.get('coupling') or r.get('multi'))):
+        if nm == 'H_mpo_from_bond' and ('chinfo' in e or 'SVD found no singular values' in e) and O.is_onsite_only(Href, r['dims'], 1e-9 * scale):
             key = 'C10:calc_H_MPO_from_bond:no-two-site-coupling'
+        if nm in ('H_np', 'H_np_noundo', 'H_sp', 'H_sp_noundo') and ('broadcast' in e or 'inconsistent shapes' in e) and any(
+                t['i'] > min(t['subsites']) for t in (r.get('exp') or {}).get('centered', [])):
+            key = 'C10:_get_Hamiltonian_from_couplings:centered-terms-not-site-ordered'
         if nm == 'H_ed_from_H_mpo' and 'lattice incompatible with H_MPO.sites' in e and not r.get('trivial_shift', True):
             key = 'C10:ExactDiag.from_H_mpo:nontrivial-charge-shift'
+        if nm == 'H_sorted_legs' and 'incompatible LegCharge' in e and not r.get('trivial_shift', True) and not finite:
+            key = 'C10:MPO.sort_legcharges:infinite-nontrivial-charge-shift'
         if nm == 'is_hermitian' and 'incompatible LegCharge' in e and not r.get('trivial_shift', True) and not finite:
             key = 'C10:MPO.dagger:infinite-nontrivial-charge-shift'
-        if nm == 'H_bond_from_plain_MPOModel' and "no attribute 'explicit_plus_hc'" in e:
+        if nm in ('H_bond_from_plain_MPOModel', 'H_bond_from_mpo') and "no attribute 'explicit_plus_hc'" in e:
             key = 'C10:MPOModel.calc_H_bond_from_MPO:explicit_plus_hc-attribute'
         problems.append((key, 'representation %s raised %s' % (nm, e)))
     # family invariance (explicit_plus_hc, manual h.c., conserve options, sort_mpo_legs): same operator
@@ -748,8 +826,8 @@ def check_case(ctx, case, r, fam_store):
         conv = O.undo_sort(Href, perms, r['dims'])
     if is_spec or case['kind'] == 'predefined':
         sig = (N, tuple(r['dims']))
-        if is_spec and not Hspec_hermitian:
-            pass
+        if (is_spec and not Hspec_hermitian) or r.get('grouped_sites'):
+            pass        # (grouped sites: the charge-sorted basis of a GroupedSite is not described by Site.perm)
         elif fkey in fam_store and fam_store[fkey][0] == sig:
             d = maxdiff(fam_store[fkey][1], conv)
             if d > tol:
